@@ -395,7 +395,7 @@ func (g *c08Gen) httpInput() c08Input {
 		case 1:
 			p, class = "/api/v1/sig-to-cid/"+strings.Trim(g.strValue(g.sigs), `"`), "api/sig-to-cid"
 		case 2:
-			p, class = g.pick([]string{"/metrics", "/health", "/api/v1/", "/api/v1/foo/1", "/api/v1/slot-to-cid/", "/api/v1/sig-to-cid/"}), "api/other"
+			p, class = g.pick([]string{"/metrics", "/health", "/api/v1/", "/api/v1", "/api", "/api/v1/foo/1", "/api/v1/slot-to-cid/", "/api/v1/sig-to-cid/", "/api/v1/slot-to-cid", "/api/v1/sig-to-cid", "/api/v1/slot-to-ci", "/api/v1/sig-to-cid//", "/api/v1/slot-to-cid/1/2", "//api/v1/slot-to-cid/1", "/api/v1/slot-to-cid/?x=1"}), "api/other"
 		default:
 			p, class = "/"+strings.Repeat("a", g.rng.Intn(300)), "path/junk"
 		}
@@ -656,6 +656,12 @@ func TestVerifC08(t *testing.T) {
 					inputs = append(inputs, c08Input{Kind: "http", Method: "POST", Path: "/", Body: base64.StdEncoding.EncodeToString([]byte(body)), Class: "jsonrpc/" + m + "/options-not-object"})
 				}
 			}
+		}
+	}
+	// directed: the REST paths with nothing, or nothing usable, after the endpoint name
+	for _, pth := range []string{"/api/v1", "/api/v1/", "/api/v1/slot-to-cid", "/api/v1/sig-to-cid", "/api/v1/slot-to-cid/", "/api/v1/sig-to-cid/", "/api/v1/slot-to-ci", "/api/v1/sig-to-ci", "/api/v1/slot-to-cid//", "/api/v1/sig-to-cid/%", "/api/v1/slot-to-cid/-1", "/api/v1/slot-to-cid/18446744073709551616"} {
+		for _, meth := range []string{"GET", "POST", "HEAD"} {
+			inputs = append(inputs, c08Input{Kind: "http", Method: meth, Path: pth, Class: "api/bare-endpoint"})
 		}
 	}
 	// directed: well-formed StreamTransactions requests naming many accounts that occur together in the same
